@@ -51,8 +51,9 @@ impl Scenario for C16 {
       max_depth: if tier == Tier::Quick { 3 } else { 4 },
       n_hot,
       sched_weight: 1,
-      // share never disconnects (C11 finding): its effect on C16 is the same defect
-      exclude: vec!["Share"],
+      // share() is part of the catalogue: the early terminator's "finished" does not
+      // travel through its inner subject (open known finding, sites with Share)
+      exclude: vec![],
       allow_flat: true,
       producer_leaves: true,
     };
@@ -206,6 +207,6 @@ pub fn check_def() -> PropertyCheck {
     ],
     runs: (200_000, 8_000_000),
     rule: "case = early terminator (take, first, element_at, take_while, contains, all, take_until) over a random operator tree (depth <=3/4, catalogue minus share) whose leaves are unbounded interval / interval_at / counting from_iter / counting from_stream / counting from_stream_result producers and hot inputs - so the producer sits in main and in notifier/secondary positions of the two-input operators - driven by a script and then run to idle on a FIFO prompt executor; non-trivial = the subscriber saw its terminal",
-    assumptions: vec!["share() is excluded here: it never disconnects its source (C11 known finding)"],
+    assumptions: vec!["a violation in a tree that contains share() is attributed to the open share finding (is_finished does not travel through the shared subject)"],
   }
 }
